@@ -182,6 +182,9 @@ def flatLatex (d : Nat) : Str → Flat
 /-- the value with its braces removed -/
 def stripBraces (v : Str) : Str := v.filter fun c => c != '{' && c != '}'
 
+/-- everything but dashes: the atoms other than the character `-` and the symbol `ndash` -/
+def nonDash (s : Flat) : Flat := s.filter fun x => x.1 != .ch '-' && x.1 != .sym "ndash".toList
+
 /-! ### field coverage -/
 
 /-- an occurrence of a `field` node whose value is part of the output; `caseChanged`: the node is
